@@ -69,7 +69,7 @@ class Builder:
             self.emit('            crate::vx_canary(%d) ==> false,' % len(self.canary_lines))
         if decreases:
             self.emit('        decreases %s' % decreases)
-    def verified_fn(self, f, name, within=None, requires=(), clauses=(), decreases=None, props=(), loops=None, blocks=None, extra_rules=(), fname=None, desugar_continue=False, pre=None, reveal=None):
+    def verified_fn(self, f, name, within=None, requires=(), clauses=(), decreases=None, props=(), loops=None, blocks=None, extra_rules=(), fname=None, desugar_continue=False, pre=None, reveal=None, attr=None):
         t, where = self._prep_fn(f, name, within, extra_rules)
         if pre: t = pre(t, self.log, where)
         if reveal is not None: t = self.reveal_literals(t, reveal, where)
@@ -80,6 +80,7 @@ class Builder:
         if loops: body = self._annotate_loops(body, loops, where)
         if blocks: body = self._insert_blocks(body, blocks, where)
         first = self.lineno()
+        if attr: self.emit('    ' + attr)
         self.emit(sig)
         self._emit_contract(fname, requires, clauses, decreases, props)
         bstart = self.lineno()
@@ -122,12 +123,32 @@ class Builder:
             self.log.add('R2', where, m.group(0), 'for .. in it%d: .. invariant ..' % n[0])
             ind = m.group(1)
             self._pending_inv.append((n[0], inv))
-            isb = lambda i: (i if isinstance(i, str) else i[2]).startswith('!break ')
-            eb = [(i[len('!break '):] if isinstance(i, str) else '/*#%s#*/ ' % i[0] + i[2][len('!break '):]) for i in inv if isb(i)]
-            inv = [i for i in inv if not isb(i)]
-            ebt = ('%s    invariant_except_break\n%s\n' % (ind, '\n'.join(ind + '        ' + i + ',' for i in eb))) if eb else ''
-            return '%sfor %s in it%d: %s\n%s%s    invariant\n%s\n%s{' % (ind, m.group(2), n[0], m.group(3).strip(), ebt, ind, '\n'.join(ind + '        ' + (i if isinstance(i, str) else '/*#%s#*/ ' % i[0] + i[2]) + ',' for i in inv), ind)
-        return re.sub(r'^([ \t]*)for (.+?) in (.+?) \{$', rep, body, flags=re.M)
+            ebt, invt, ent = self._inv_text(inv, ind)
+            return '%sfor %s in it%d: %s\n%s%s%s%s{' % (ind, m.group(2), n[0], m.group(3).strip(), ebt, invt, ent, ind)
+        body = re.sub(r'^([ \t]*)for (.+?) in (.+?) \{$', rep, body, flags=re.M)
+        # `while` loops are addressed as 'w1', 'w2', .. (source order); they keep their condition and get the invariant list
+        wn = [0]
+        def repw(m):
+            wn[0] += 1
+            inv = loops.get('w%d' % wn[0])
+            if inv is None: return m.group(0)
+            self.log.add('R2', where, m.group(0), 'while ..: invariant ..')
+            ind = m.group(1)
+            ebt, invt, ent = self._inv_text(inv, ind)
+            return '%swhile %s\n%s%s%s%s{' % (ind, m.group(2), ebt, invt, ent, ind)
+        return re.sub(r'^([ \t]*)while (.+?) \{$', repw, body, flags=re.M)
+    def _inv_text(self, inv, ind):
+        """entries: text | (label, props, text); prefix '!break ' => invariant_except_break, '!ensures ' => loop ensures"""
+        txt = lambda i: i if isinstance(i, str) else i[2]
+        def strip(i, pre):
+            return txt(i)[len(pre):] if isinstance(i, str) else '/*#%s#*/ ' % i[0] + i[2][len(pre):]
+        eb = [strip(i, '!break ') for i in inv if txt(i).startswith('!break ')]
+        en = [strip(i, '!ensures ') for i in inv if txt(i).startswith('!ensures ')]
+        rest = [strip(i, '') for i in inv if not txt(i).startswith('!break ') and not txt(i).startswith('!ensures ')]
+        ebt = ('%s    invariant_except_break\n%s\n' % (ind, '\n'.join(ind + '        ' + i + ',' for i in eb))) if eb else ''
+        invt = ('%s    invariant\n%s\n' % (ind, '\n'.join(ind + '        ' + i + ',' for i in rest))) if rest else ''
+        ent = ('%s    ensures\n%s\n' % (ind, '\n'.join(ind + '        ' + i + ',' for i in en))) if en else ''
+        return ebt, invt, ent
     def _insert_blocks(self, body, blocks, where):
         # R2b: (anchor text, 'before'|'after'|'after_block'|'fn_end', ghost text)
         for blk in blocks:
